@@ -1,6 +1,7 @@
 package main
 
 import (
+	"sort"
 	"fmt"
 	"strings"
 	"sync"
@@ -513,7 +514,7 @@ func verifPool() []string {
 	return out
 }
 `},
-	{prop: "C12", pkg: "maven", refName: "Maven 3.8 ComparableVersion", classes: []string{"numbers-only", "with-build-number", "with-qualifier"},
+	{prop: "C12", pkg: "maven", refName: "Maven 3.8 ComparableVersion", classes: []string{"numbers-only", "with-build-number", "with-qualifier", "with-qualifier[same-stem]", "with-qualifier[stems-of-equal-length]"},
 		bound: "conventional shapes: 7 numeric stems N(.N){0,3} x ('.'|'-') x 14 qualifiers in three letter cases x 5 number attachments, aliases a/b/m + digit, bare build numbers (about 1500 texts, all pairs)",
 		code: `
 // org.apache.maven.artifact.versioning.ComparableVersion (Maven 3.8.x), items: int, string, list
@@ -743,7 +744,7 @@ func verifParse(version string) *verifItem {
 	return root
 }
 
-var verifClasses = []string{"numbers-only", "with-build-number", "with-qualifier"}
+var verifClasses = []string{"numbers-only", "with-build-number", "with-qualifier", "with-qualifier[same-stem]", "with-qualifier[stems-of-equal-length]"}
 
 // shape of a conventional version: numbers only, a bare build number after '-', or a qualifier group
 func verifShape(s string) int {
@@ -760,12 +761,34 @@ func verifShape(s string) int {
 	return 2
 }
 
+// numeric stem of a conventional version (the dot-separated numbers before the qualifier group or build number)
+func verifStem(s string) string {
+	i := 0
+	for i < len(s) && (s[i] == '.' || (s[i] >= '0' && s[i] <= '9')) {
+		i++
+	}
+	return strings.TrimSuffix(s[:i], ".")
+}
+
 func verifRef(a, b string) (int, string) {
 	k := verifShape(a)
 	if x := verifShape(b); x > k {
 		k = x
 	}
-	return verifCompare(verifParse(a), verifParse(b)), verifClasses[k]
+	class := verifClasses[k]
+	if k == 2 {
+		// pairs with a qualifier group are partitioned by what their numeric stems have in common: the recorded
+		// difference between the flat token model and ComparableVersion needs stems of different lengths (or the
+		// same stem), so pairs whose stems have the same length and differ form a class of their own
+		sa, sb := verifStem(a), verifStem(b)
+		switch {
+		case sa == sb:
+			class = "with-qualifier[same-stem]"
+		case strings.Count(sa, ".") == strings.Count(sb, "."):
+			class = "with-qualifier[stems-of-equal-length]"
+		}
+	}
+	return verifCompare(verifParse(a), verifParse(b)), class
 }
 
 func verifPool() []string {
@@ -852,11 +875,32 @@ func runRefOrder(w *World, prop string) *refOrderResult {
 func refOrderFalsifier(w *World, prop string) *Counterexample {
 	r := runRefOrder(w, prop)
 	cx := &Counterexample{How: "real NewVersion+Compare on a grid of version texts against a transcription of the native tool's algorithm", Output: truncate(lastLines(r.out, 8), 1500), Observed: "no difference observed"}
-	for _, ln := range r.lines {
-		if rest, ok := strings.CutPrefix(ln, "CX "); ok {
-			cx.Confirmed, cx.Observed = true, rest
-			break
+	// a class whose difference is a recorded finding (and within its recorded extent) is not a failing input for anything
+	// else: without this, a stale contract in a package with a recorded finding was "confirmed" by the finding itself
+	findings := loadFindings()
+	var classes []string
+	for c := range r.lines {
+		classes = append(classes, c)
+	}
+	sort.Strings(classes)
+	for _, c := range classes {
+		ln := r.lines[c]
+		rest, ok := strings.CutPrefix(ln, "CX ")
+		if !ok {
+			continue
 		}
+		recorded := false
+		for i := range findings {
+			f := &findings[i]
+			if f.Property == prop && strings.HasSuffix(f.Obligation, ".reference-order["+c+"].bounded") && f.covers(ln) {
+				recorded = true
+			}
+		}
+		if recorded {
+			continue
+		}
+		cx.Confirmed, cx.Observed = true, rest
+		break
 	}
 	return cx
 }
